@@ -16,7 +16,11 @@ RULE = ("(a) all strings up to the tier's length over {a C : / \\ # . f i l e} t
         "relative path, file: URL, named file object) for schemas and configurations, %include / schema src / extends "
         "references relative to the containing resource with decoy files of the same relative name elsewhere, reused loader "
         "objects across chdir; fragments rejected; names with a blank at their very start / very end (after the extension) beside a "
-        "neighbour without it, references spelled by pathname2url / literally / mixed; an alphabet sweep: every character at the "
+        "neighbour without it, references spelled by pathname2url / literally / mixed; names that are special AS A WHOLE to a shell / "
+        "a command line / os.path conveniences / a pattern matcher and ordinary here ('~', '~<login name of this machine>', '~+', '-', "
+        "'-x', '...', '[]', '[!a]', '&&', every character of the alphabet alone ...) as directory AND as file name, 3 levels deep, "
+        "from current directories that make the name the first / a middle / the last segment of the relative path or all of it, 4 entry "
+        "points, and as reference targets / as the whole reference; an alphabet sweep: every character at the "
         "start / inside / end of a name and every ordered pair of punctuation characters inside one, as top resource (4 entry "
         "points) and as target of %include / <import src> / extends per spelling. non-trivial = a load through >= 2 resources; distinct by (layout, cwd, way)")
 
@@ -351,6 +355,176 @@ def run_sweep(ctx, ZConfig, root, outside):
     return sw
 
 
+def login_names(rng, extra=2):
+    """login names of this machine that are file names over the alphabet: the current user, 'root', and a few others"""
+    try:
+        import pwd
+        every = sorted({p.pw_name for p in pwd.getpwall()} | {pwd.getpwuid(os.getuid()).pw_name})
+        me = pwd.getpwuid(os.getuid()).pw_name
+    except Exception:
+        return []
+    every = [n for n in every if n and all(c.isalnum() or c in "-_." for c in n) and n.strip(".")]
+    out = [n for n in (me, "root") if n in every]
+    rest = [n for n in every if n not in out]
+    rng.shuffle(rest)
+    return list(dict.fromkeys(out + rest[:extra]))
+
+
+def whole_names(rng):
+    """file names over the alphabet that AS A WHOLE mean something to another layer that handles file names (a shell, a
+    command line, os.path's conveniences, a pattern matcher) - and nothing at all to the property: they are ordinary names of
+    ordinary files and directories.  (a) the tilde forms of shells / os.path.expanduser: '~', '~<login name>' (login names of
+    this machine), '~+', '~-', '~~', '~<no login name>'; (b) every character of the alphabet alone (a blank too);
+    (c) names of punctuation only and pattern-like / option-like names: '...', '--', '-x', '[]', '[a]', '[!a]', '&&', ';;', '+'..."""
+    tilde = ["~"] + ["~" + n for n in login_names(rng)] + ["~+", "~-", "~~", "~zcv-no-such-login", "~ "]
+    single = [c for c in NAMECHARS if c != "."]
+    other = ["...", ". .", "--", "-x", "-", "[]", "[a]", "[!a]", "[~]", "&&", ";;", "++", "__", "-~", "~.conf", "~.xml", ".~"]
+    return list(dict.fromkeys(tilde + single + other))
+
+
+def build_whole(rng, root):
+    """for every name N of whole_names(): below the plainly named container root/wn
+         N/cf.conf, N/sc.xml      a configuration and a schema in a DIRECTORY called N (each refers to a plainly named sibling)
+         N/N/N                    a configuration FILE called N, in a directory called N, in a directory called N (3 levels)
+         N/s/N                    a schema file called N
+         N/lf.conf, ty.xml, bs.xml  targets of %include / <import src> / extends from referrers in the container, per spelling
+         N/N/ref-<spelling>.conf  a configuration whose %include argument is N and nothing else
+    so that, over the current directories, N is the first, a middle and the last segment of a relative path, and the whole of it."""
+    wn = os.path.join(root, "wn")
+    os.makedirs(wn)
+    items = []
+    for i, name in enumerate(whole_names(rng)):
+        tag = "wt%d" % i
+        d = os.path.join(wn, name)
+        dd, ds = os.path.join(d, name), os.path.join(d, "s")
+        os.makedirs(dd)
+        os.makedirs(ds)
+        _w(os.path.join(d, "cf.conf"), "k %s\n%%include part.conf\n" % tag)
+        _w(os.path.join(d, "part.conf"), "inc %s\n" % tag)
+        _w(os.path.join(d, "sc.xml"), "<schema extends='base.xml'><key name='tag' default='%s'/></schema>" % tag)
+        _w(os.path.join(d, "base.xml"), "<schema><key name='who' default='%s'/></schema>" % tag)
+        _w(os.path.join(dd, name), "k %sd\n%%include part.conf\n" % tag)
+        _w(os.path.join(dd, "part.conf"), "inc %sd\n" % tag)
+        _w(os.path.join(ds, name), "<schema extends='base.xml'><key name='tag' default='%ss'/></schema>" % tag)
+        _w(os.path.join(ds, "base.xml"), "<schema><key name='who' default='%ss'/></schema>" % tag)
+        _w(os.path.join(d, "lf.conf"), "k %s\n" % tag)
+        _w(os.path.join(d, "ty.xml"), "<schema><sectiontype name='ty%d'><key name='ik' default='%s'/></sectiontype></schema>" % (i, tag))
+        _w(os.path.join(d, "bs.xml"), "<schema><key name='bk%d' default='%s'/></schema>" % (i, tag))
+        selfrefs = {}
+        for mode in REFMODES:
+            selfrefs[mode] = os.path.join(dd, "ref-%s.conf" % mode)
+            _w(selfrefs[mode], "k ref\n%%include %s\n" % spell(name, mode, rng))
+        items.append({"i": i, "name": name, "tag": tag, "dir": d, "deep": dd, "sdir": ds, "leaf": "lf.conf", "comp": "ty.xml", "base": "bs.xml",
+                      "selfrefs": selfrefs})
+    _w(os.path.join(wn, "part.conf"), "inc WRONG-BASE\n")
+    _w(os.path.join(wn, "base.xml"), "<schema><key name='who' default='WRONG-BASE'/></schema>")
+    referrers = {}
+    for mode in REFMODES:
+        refs = {k: [spell(it["name"] + "/" + it[k], mode, rng) for it in items] for k in ("leaf", "comp", "base")}
+        referrers[mode] = {"refs": refs, "files": write_referrers(wn, "all-" + mode, refs, items)}
+    return {"container": wn, "items": items, "referrers": referrers}
+
+
+def run_whole(ctx, ZConfig, root, outside):
+    """names that are special AS A WHOLE (whole_names) as directory and file names: every entry point, from current directories
+    that make the name the first / a middle / the last segment of the relative path, or all of it; and as reference targets"""
+    wh = build_whole(ctx.rng, root)
+    wn, items = wh["container"], wh["items"]
+    sch_k = ZConfig.loadSchemaFile(io.StringIO("<schema><multikey name='k'/><key name='inc'/></schema>"))
+    ctx.count("whole-name:names", len(items))
+    for it in items:
+        d, dd, ds, tag = it["dir"], it["deep"], it["sdir"], it["tag"]
+        tops = [("config", os.path.join(d, "cf.conf"), tag, (wn, root, outside, d), "a configuration in the directory"),
+                ("schema", os.path.join(d, "sc.xml"), tag, (wn, root, d), "a schema in the directory"),
+                ("config", os.path.join(dd, it["name"]), tag + "d", (wn, d, dd), "the configuration file"),
+                ("schema", os.path.join(ds, it["name"]), tag + "s", (wn, d, ds), "the schema file")]
+        for kind, pth, t, cwds, what in tops:
+            want = [t, t]
+            for cwd in cwds:
+                os.chdir(cwd)
+                rel = os.path.relpath(pth, cwd).split(os.sep)
+                role = "whole-path" if rel == [it["name"]] else "first-segment" if rel[0] == it["name"] else \
+                       "last-segment" if rel[-1] == it["name"] else "middle-segment" if it["name"] in rel else "not-in-relative-path"
+                for way, arg in ways(pth, cwd):
+                    ctx.evaluations += 1
+                    ctx.count("whole-name:top-resource:%s:%s" % (kind, role))
+                    ctx.nontriv(("whole", it["i"], kind, role, way, what))
+                    try:
+                        r = _load(ZConfig, kind, way, arg, sch_k)
+                        got = [r.k[0] if len(r.k) == 1 else list(r.k), r.inc] if kind == "config" else \
+                              [r.getinfo("tag").getdefault().value, r.getinfo("who").getdefault().value]
+                    except Exception as e:
+                        got = _exc(e)
+                    if got != want:
+                        ctx.violate("%s called %r (a name that is special as a whole to shells / path conveniences, and an ordinary name "
+                                    "here): %r loaded by %s %r from cwd %r (the name is the %s of the relative path): (own content, "
+                                    "content of the sibling it refers to) = %r, expected %r" % (
+                                        what, it["name"], os.path.relpath(pth, root), way, arg, cwd, role, got, want),
+                                    {"name": it["name"], "kind": kind, "file": os.path.relpath(pth, root), "cwd": cwd, "way": way, "arg": arg,
+                                     "role of the name in the relative path": role, "got": got, "expected": want,
+                                     "text": open(pth, encoding="utf-8").read(), "root": root, "files-nearby": sorted(os.listdir(os.path.dirname(pth)))},
+                                    signature="C18:whole-name:%s:%s:%s" % (kind, way, "exc" if isinstance(got, str) else "wrong-resource"))
+        # a reference that is the name and nothing else
+        for mode, pth in sorted(it["selfrefs"].items()):
+            want = [["ref", it["tag"] + "d"], it["tag"] + "d"]
+            for cwd in (wn, dd):
+                os.chdir(cwd)
+                for way, arg in ways(pth, cwd):
+                    # (the referrer itself is named without the name in the path-like entry points that depend on the current
+                    # directory: what is observed here is the reference)
+                    if way not in (("abs", "url") if cwd == wn else ("rel", "fileobj-rel")):
+                        continue
+                    ctx.evaluations += 1
+                    ctx.count("whole-name:reference-is-the-name:" + mode)
+                    ctx.nontriv(("whole-selfref", it["i"], mode, cwd == wn, way))
+                    try:
+                        r = _load(ZConfig, "config", way, arg, sch_k)
+                        got = [list(r.k), r.inc]
+                    except Exception as e:
+                        got = _exc(e)
+                    if got != want:
+                        ctx.violate("%%include whose argument (spelled %s) is the whole file name %r, from %r loaded by %s from cwd %r: %r, expected %r" % (
+                            mode, it["name"], os.path.relpath(pth, root), way, cwd, got, want),
+                            {"name": it["name"], "spelling": mode, "file": os.path.relpath(pth, root), "cwd": cwd, "way": way, "arg": arg,
+                             "got": got, "expected": want, "text": open(pth, encoding="utf-8").read(), "root": root},
+                            signature="C18:whole-name-reference:include:%s:%s" % (mode, "exc" if isinstance(got, str) else "wrong-resource"))
+    # directories of those names in %include / <import src> / extends references, per spelling
+    want = [it["tag"] for it in items]
+    target = {"include": "leaf", "import-src": "comp", "extends": "base"}
+    for mode in REFMODES:
+        ref = wh["referrers"][mode]
+        for kind, pth in sorted(ref["files"].items()):
+            for cwd in (wn, outside):
+                os.chdir(cwd)
+                for way, arg in ways(pth, cwd):
+                    if cwd == outside and way not in ("rel", "fileobj-rel"):
+                        continue
+                    ctx.evaluations += 1
+                    ctx.count("whole-name:reference:%s:%s" % (kind, mode), len(items))
+                    ctx.nontriv(("whole-ref", mode, kind, cwd == outside, way))
+                    got = _observe_refs(ZConfig, kind, way, arg, items, sch_k)
+                    if got == want:
+                        continue
+                    culprit = None
+                    for n, it in enumerate(items):
+                        one = {k: [v[n]] for k, v in ref["refs"].items()}
+                        single = write_referrers(wn, "one-" + mode, one, [it])[kind]
+                        g1 = _observe_refs(ZConfig, kind, way, dict(ways(single, cwd))[way], [it], sch_k)
+                        if g1 != [it["tag"]]:
+                            culprit = {"name": it["name"], "reference": one[target[kind]][0],
+                                       "names the file": os.path.relpath(os.path.join(it["dir"], it[target[kind]]), root),
+                                       "referrer": os.path.relpath(single, root), "referrer text": open(single, encoding="utf-8").read(), "got": g1, "expected": [it["tag"]]}
+                            break
+                    ctx.violate("%s references (spelled %s) into directories with names that are special as a whole, from a resource loaded by %s "
+                                "from cwd %r, do not reach the files of those names: %s" % (
+                                    kind, mode, way, cwd, ("%r gives %r" % (culprit["reference"], culprit["got"])) if culprit else repr(got)[:200]),
+                                {"kind": kind, "spelling": mode, "cwd": cwd, "way": way, "arg": arg, "root": root, "culprit": culprit,
+                                 "got": got, "expected": want, "referrer text": open(pth, encoding="utf-8").read()[:4000]},
+                                signature="C18:whole-name-reference:%s:%s:%s" % (kind, mode, "exc" if isinstance(got, str) else "wrong-resource"))
+                    break
+    return wh
+
+
 def ways(path, cwd):
     rel = os.path.relpath(path, cwd)
     return [("abs", path), ("rel", rel), ("url", "file://" + urllib.request.pathname2url(path)), ("fileobj", path), ("fileobj-rel", rel)]
@@ -460,6 +634,7 @@ def run(ctx):
     base = "/dev/shm" if os.path.isdir("/dev/shm") else None
     ntrees = 60 if ctx.thorough() else 10
     nsweeps = 12 if ctx.thorough() else 2
+    nwhole = 6 if ctx.thorough() else 1
     root0 = ctx.rng.randrange(len(ROOTNAMES))
     for ti in range(ntrees):
         top = tempfile.mkdtemp(prefix="zcv c18-é ", dir=base)
@@ -469,6 +644,9 @@ def run(ctx):
             refmode = REFMODES[ti % len(REFMODES)]
             ctx.count("tree:references-" + refmode)
             t = build_tree(ctx.rng, root, refmode)
+            if ti < nwhole:
+                # names that are special as a whole ('~', '~<login name>', '-', '[]', ...): in the container root/wn
+                run_whole(ctx, ZConfig, root, os.path.dirname(root))
             if ti < nsweeps:
                 # the alphabet sweep lives in the same root (its directories are named sd<i> with the character added)
                 run_sweep(ctx, ZConfig, root, os.path.dirname(root))
